@@ -15,11 +15,13 @@ LEVEL_NOTE = ("Trusted: Lean kernel (+ standard axioms); the hand-written model 
               "numpy .view(uintN) is a lossless reinterpretation of a contiguous array; canonical form of arrays produced by slicing / "
               "arithmetic / concatenation is checked on the implementation's results in C15/C16 and proved there for the model.")
 TECHNIQUE = "Lean 4 proof of decode∘encode = id and XOR decoder = decode; model/implementation correspondence"
-DESIGN_REF = "6.14"
+DESIGN_REF = "7"
 LEAN_MODULES = ["NpsVerif.Props.C14"]
 KERNELS = ()
 RULE = ("cases = 1-D array (all arrays over a 3-letter alphabet up to length 5 quick / 7 thorough, plus random arrays with long runs "
-        "up to length 60) x dtype (letters mapped to the dtype's extremes, NaN, -0.0); distinct = distinct (classes, dtype); "
+        "up to length 60) x dtype (letters mapped to the dtype's extremes, NaN, -0.0, or to NEIGHBOURING values such as 2**63 / "
+        "2**63+1, 1.0 / 1.0+eps); plus derived arrays (stepped slices, ufuncs of two run-length operands, concatenations) judged for "
+        "canonical form; distinct = distinct (classes, dtype, letters, derivation); "
         "non-trivial = length >= 2")
 EXHAUSTIVE = {"quick": False, "thorough": False}
 CORRESPONDENCE_ONLY = ["dtype tag", "np.asarray conversion"]
